@@ -262,22 +262,24 @@ def back_decisions(ck, P, R="SIB/back~dispatch"):
         return
     rb = b.arm_regions(sw[0])
 
-    def state_only(cmps):
+    def state_only(cmps, lens_ok=False):
         out = set()
         for cls, calls, names, consts, variants in cmps:
             names = tuple(n for n in names if n != "state")
-            if calls or not names or variants:
+            # the length of a constant table (`ORDER.len()` for 19) stands for a constant
+            wild = lens_ok and bool(calls) and all(c.split("::")[-1] == "len" for c in calls)
+            if (calls and not wild) or not names or variants:
                 continue
-            out.add((cls, names, frozenset(consts)))
+            out.add((cls, names, frozenset(consts), wild))
         return out
     n = 0
     for arms_d, arm_b in ((("Table", "LenLens", "CodeLens"), "Table"), (("Stored", "CopyBlock"), "Stored"), (("Type", "TypeDo"), "Type")):
         if not ck.anchor("arm %s of back" % arm_b, arm_b in rb):
             continue
         ca = state_only(set().union(*[_c04._arm_cmps(d, rd[a]) for a in arms_d if a in rd]))
-        cb = state_only(_c04._arm_cmps(b, rb[arm_b]))
-        missing = sorted((cls, names, sorted(consts)) for cls, names, consts in ca
-                         if not any(c2 == cls and n2 == names and consts <= k2 for c2, n2, k2 in cb))
+        cb = state_only(_c04._arm_cmps(b, rb[arm_b]), lens_ok=True)
+        missing = sorted((cls, names, sorted(consts)) for cls, names, consts, _w in ca
+                         if not any(c2 == cls and n2 == names and (consts <= k2 or w2) for c2, n2, k2, w2 in cb))
         n += len(ca)
         ck.decide(not missing, R, "%s:decisions" % arm_b, "every state-only decision of dispatch has a counterpart (%d)" % len(ca),
                   "arm %s of back() no longer makes the decisions %s that the corresponding arms of State::dispatch make: inflateBack "
